@@ -85,6 +85,9 @@ def gen_prim_case(g, cid):
     # default case a trailing #[ghost({..})] variant may follow the arms (the `_ =>` case must not depend on which variant is declared last)
     pc.dflt_ghost = g.chance(0.5)
     pc.tail_ghost = pc.default is not None and pc.default["mode"] != "probe" and g.chance(0.35)
+    # an action-less #[ghost] variant between the arms: the Into instruction's own `_ => value` case serves it (and only it)
+    pc.mid_ghost = g.chance(0.3)
+    pc.mid_pos = g.r.random()
     return pc
 
 
@@ -156,6 +159,9 @@ def render_case(pc, g):
             names = [("map_owned" if not pc.ref else "map_ref", dflt)] if g.chance(0.5) else [("from_owned" if not pc.ref else "from_ref", dflt), ("owned_into" if not pc.ref else "ref_into", [])]
     else:
         names = [("from_owned" if not pc.ref else "from_ref", dflt)]
+    mid = pc.into and getattr(pc, "mid_ghost", False)
+    if mid:
+        names = [("from_owned" if not pc.ref else "from_ref", dflt), ("owned_into" if not pc.ref else "ref_into", [("default", "=> " + litsrc(pc, unused_value(pc)))])]
     from .model import FALLIBLE_NAME
     for nm, ps in names:
         it.attrs.append(Instr(FALLIBLE_NAME[nm] if fal else nm, "trait", ty=P, hint=None, err="Er" if fal else None, params=ps))
@@ -172,6 +178,9 @@ def render_case(pc, g):
                 into_vals[a.vname] = litsrc(pc, rep) if a.kind != "path" else f"{pc.prim}::{a.data}"
                 attrs.append(Instr("into" if g.chance(0.5) else ("owned_into" if not pc.ref else "ref_into"), "map", container=None, member=None, action=into_vals[a.vname], braced=True))
         it.variants.append(Variant(a.vname, "unit", [], attrs))
+    if mid:
+        it.variants.insert(int(pc.mid_pos * len(it.variants)), Variant("Mid", "unit", [], [Instr("ghost", "ghost", container=None, action=None)]))
+        into_vals["Mid"] = litsrc(pc, unused_value(pc))
     if pc.catch_all:
         payload_ty = P
         fa = [Instr("from", "map", container=None, member=None, action=("*@" if pc.ref else "@"), braced=False)]
